@@ -95,6 +95,10 @@ def configs(tier):
                 "history": [["init", None], ["sample"], ["add", "b", -6, -2, "y"]]})
     # ground truth given as an iterable with a repeated name
     out.append({"ref": "r3", "gt": ["a", "b", "a"], "pivot": "float_pivot", "bound": None})
+    # after the judged initialisation the caller tries another one that the sampler refuses (unknown annotator) and
+    # catches the error: the draws still follow the initialisation that succeeded
+    out.append({"ref": "r3", "gt": ["a", "b"], "pivot": "float_pivot", "bound": None, "then_refused": ["nobody"]})
+    out.append({"ref": "r3", "gt": None, "pivot": "int_pivot", "bound": 3, "then_refused": ["a", "nobody"]})
     return out
 
 
@@ -123,6 +127,11 @@ def make_fn_factory(cfg):
                     c.add(prev[1], Segment(prev[2], prev[3]), prev[4])
             e1.mark("judged")
             s.init_sampling(c, cfg["gt"])
+            if cfg.get("then_refused"):
+                try:
+                    s.init_sampling(c, cfg["then_refused"])
+                except Exception:  # noqa - refused and caught by the caller
+                    pass
             sample = s.sample_from_continuum
             return continuum_to_spec(sample), c.bounds, c.avg_length_unit
         return fn
